@@ -53,7 +53,7 @@ class Prop:
             "event log (operations, outcomes, eval calls)")
     probes = ["op_scalar", "op_array", "op_view_create", "op_on_view", "op_on_packed_view", "expect_indexerror_order",
               "expect_indexerror_finite", "expect_runtimeerror_cycle", "masked_result", "precached_read",
-              "dep_nested_eval", "dep_slice_eval", "dep_view_eval", "npint_index", "cycle_len1", "cycle_len2", "cycle_len3", "view_of_view", "wrong_length"]
+              "dep_nested_eval", "dep_slice_eval", "dep_view_eval", "kept_view_created", "op_on_kept_view", "npint_index", "cycle_len1", "cycle_len2", "cycle_len3", "view_of_view", "wrong_length"]
     components_real = ["pymablock.series.BlockSeries (__getitem__, views, _check_finite, _check_number_perturbations)"]
     components_stub = ["element eval callbacks (simulator-owned table with dependency edges)", "series names (token_hex counter)"]
     assumptions = ["orders < 5, at most 3 finite and 2 infinite dimensions, sizes 1-3",
@@ -87,6 +87,13 @@ class Prop:
                 edges.append([s, a, t, b] + (kind if roots[t]["ninf"] else []))
             elif self._rank(roots, s, a) < self._rank(roots, t, b):
                 edges.append([t, b, s, a] + (kind if roots[s]["ninf"] else []))
+        kept_views = []
+        for _ in range(r.choice([0, 0, 1, 2])):
+            s = r.randrange(nroots)
+            if roots[s]["shape"] and roots[s]["ninf"]:
+                a = self._rand_index(r, roots[s])
+                edges.append([s, a, s, a, "kv"])  # while this element is evaluated, a view of its own block is created and kept
+                kept_views.append([s, a[: len(roots[s]["shape"])]])
         cyc = r.choice([0, 0, 0, 1, 1, 2, 3])
         if cyc:
             nodes = []
@@ -120,6 +127,10 @@ class Prop:
                 targets.append(vt)
                 dims[vt] = (vshape, ninf)
                 nviews += 1
+        for s, fin in kept_views:
+            for _ in range(r.randint(1, 4)):
+                orders = [r.randrange(K) if r.random() < 0.7 else {"s": [0, r.randint(1, K), None]} for _ in range(roots[s]["ninf"])]
+                ops.insert(r.randint(0, len(ops)), ["kidx", s, fin, orders])
         return {"roots": roots, "edges": edges, "ops": ops}
 
     @staticmethod
@@ -210,6 +221,11 @@ class Prop:
         for e in case["edges"]:
             s, a, t, b = e[:4]
             if s < nroots and t < nroots and self._valid(roots_spec, s, a) and self._valid(roots_spec, t, b):
+                if len(e) > 4 and e[4] == "kv":
+                    nf = len(roots_spec[s]["shape"])
+                    if nf and roots_spec[s]["ninf"]:
+                        requests.setdefault((s, tuple(a)), []).append((s, ("keep", tuple(int(x) for x in a[:nf]))))
+                    continue
                 if len(e) > 4 and e[4] == "vw" and roots_spec[t]["ninf"] and roots_spec[t]["shape"]:
                     # the eval goes through an all-integer view of the other series
                     nf = len(roots_spec[t]["shape"])
@@ -269,7 +285,7 @@ class Prop:
         # cycle-length probes
         for e in case["edges"]:
             s, a, t, b = e[:4]
-            if (s, tuple(a)) == (t, tuple(b)):
+            if (s, tuple(a)) == (t, tuple(b)) and not (len(e) > 4 and e[4] == "kv"):
                 bump("cycle_len1")
         ncyc = len(bad_ids)
         if ncyc:
@@ -278,6 +294,7 @@ class Prop:
         # --- real objects
         calls = {}  # (s, index) -> number of eval calls
         real_roots = []
+        kept = {}  # views created and kept by element evals
 
         def make_eval(s):
             def ev(*index):
@@ -286,6 +303,11 @@ class Prop:
                 events.append(("eval", s, index))
                 for t, b in requests.get((s, index), ()):
                     bump("dep_nested_eval")
+                    if b and b[0] == "keep":
+                        if (t, b[1]) not in kept:
+                            kept[(t, b[1])] = real_roots[t][b[1]]  # all Python ints: a scalar view, made while (s, index) is in flight
+                            bump("kept_view_created")
+                        continue
                     if b and b[0] == "view":
                         bump("dep_view_eval")
                         real_roots[t][b[1]][b[2]]
@@ -317,6 +339,18 @@ class Prop:
         for opi, op in enumerate(case["ops"]):
             if violation:
                 break
+            if op[0] == "kidx":
+                _, ks, kfin, korders = op
+                key = (ks, tuple(kfin))
+                if key not in kept or ks >= nroots:
+                    continue
+                nf = len(roots_spec[ks]["shape"])
+                Dk = ids[ks][tuple(kfin) + (slice(None),) * roots_spec[ks]["ninf"]]
+                targets[("k",) + key] = (kept[key], Dk, 0, roots_spec[ks]["ninf"], "scalarview", ())
+                if kept[key] not in all_series:
+                    all_series.append(kept[key])
+                op = ["idx", ("k",) + key, korders, -1]
+                bump("op_on_kept_view")
             _, tgt, item_spec, label = op
             tgt = tuple(tgt)
             if tgt not in targets:
@@ -461,7 +495,7 @@ class Prop:
             states.append(format(sig & 0xFFFFFFFFFFFF, "x"))
 
         # cycle length probes (2, 3) – structural, from the edge list
-        es = {((e[0], tuple(e[1])), (e[2], tuple(e[3]))) for e in case["edges"]}
+        es = {((e[0], tuple(e[1])), (e[2], tuple(e[3]))) for e in case["edges"] if not (len(e) > 4 and e[4] == "kv")}
         for (u, v) in es:
             if u != v and (v, u) in es:
                 bump("cycle_len2")
